@@ -325,7 +325,8 @@ Section WithChild.
         let anc := if panicking then c_panic c :: g_anc g else [] in
         let '(g1, e) := child (set_anc g anc) (child_ctx c d) in
         let c1 := if panicking then set_panic c (hd None (g_anc g1)) else c in
-        let g2 := set_anc g1 (g_anc g) in
+        (* the child may have cleared the panic of a context further down the chain (recover walks it) *)
+        let g2 := set_anc g1 (if panicking then tl (g_anc g1) else g_anc g) in
         match e with
         | None | Some EStop => invoke_list panicking g2 c1 r
         | Some e' => (g2, c1, Some e')
